@@ -26,9 +26,13 @@ func zzSame(a, b *Result, what string) {
 // only PaginationInfo, which is empty when skipped or without URL; Result.URL
 // is the supplied URL.
 func HarnessC13Options() {
-	page := vx.Pages[vx.Choose("page", len(vx.Pages))]
+	pi := vx.Choose("page", len(vx.Pages))
+	page := vx.Pages[pi]
 	withURL := vx.Choose("url", 2) == 1
-	urlStr := []string{"http://h.t/a?page=2", "http://h.t/story/2", "http://h.t/dir/", "http://h.t/archive?page=2"}[vx.Choose("urlform", 4)]
+	// the page's own URL (its pager is built for it), a directory URL, and a URL
+	// whose path has percent-encoded and non-ASCII characters
+	own := []string{"http://h.t/a?page=2", "http://h.t/story/2", "http://h.t/plain/", "http://h.t/list?cat=2&page=2", "http://h.t/archive?page=2", "http://h.t/x/2"}[pi]
+	urlStr := []string{own, "http://h.t/dir/", "http://h.t/caf%C3%A9/a%20b/\u00fc/2"}[vx.Choose("urlform", 3)]
 	mk := func() *Options {
 		o := &Options{}
 		if withURL {
@@ -120,6 +124,42 @@ func HarnessC13PagerText() {
 		return
 	}
 	zzSame(r0, r1, "pager text")
+	vx.Assert(r0.PaginationInfo.NextPage == r1.PaginationInfo.NextPage && r0.PaginationInfo.PrevPage == r1.PaginationInfo.PrevPage, "log flags change PaginationInfo")
+	if r0.PaginationInfo.NextPage != "" {
+		vx.Cover("next-found")
+	} else {
+		vx.Cover("next-empty")
+	}
+}
+
+// HarnessC13PagerNest: prev/next anchors under zero to two wrappers whose class
+// names are positive, negative or neutral for the link scorer, with and without
+// a class on the anchor itself, so that scores land on both sides of the
+// acceptance threshold; log flags must not change PaginationInfo.
+func HarnessC13PagerNest() {
+	names := []string{"", "pagination", "footer", "related", "comment", "body-and-footer"}
+	outer := names[vx.Choose("outer", len(names))]
+	inner := names[vx.Choose("inner", len(names))]
+	acls := []string{"", ` class="next"`, ` rel="next"`}[vx.Choose("acls", 3)]
+	label := []string{"Next", "next page", "Older", "3"}[vx.Choose("label", 4)]
+	wrap := func(cls, body string) string {
+		if cls == "" {
+			return body
+		}
+		return `<div class="` + cls + `">` + body + `</div>`
+	}
+	pager := wrap(outer, wrap(inner, `<a class="prev" href="/story/1">Prev</a> <a`+acls+` href="/story/3">`+label+`</a>`))
+	page := `<html><head><title>Story</title></head><body><div id="main"><p>Some words of the story are here, enough of them to look like a paragraph of text, and a few more to be safe.</p></div>` + pager + `</body></html>`
+	u, _ := nurl.Parse("http://h.t/story/2")
+	r0, _ := Apply(vx.ParseHTML(page), &Options{OriginalURL: u})
+	fl := []LogFlag{LogPagination, LogEverything, LogExtraction | LogVisibility | LogTiming}[vx.Choose("flags", 3)]
+	u2, _ := nurl.Parse("http://h.t/story/2")
+	r1, _ := Apply(vx.ParseHTML(page), &Options{OriginalURL: u2, LogFlags: fl})
+	vx.Assert(r0 != nil && r1 != nil, "Apply failed")
+	if r0 == nil || r1 == nil {
+		return
+	}
+	zzSame(r0, r1, "pager nest")
 	vx.Assert(r0.PaginationInfo.NextPage == r1.PaginationInfo.NextPage && r0.PaginationInfo.PrevPage == r1.PaginationInfo.PrevPage, "log flags change PaginationInfo")
 	if r0.PaginationInfo.NextPage != "" {
 		vx.Cover("next-found")
